@@ -10,6 +10,18 @@ const N1: &str = "127.0.0.1:6000";
 const P2: &str = "127.0.0.2:7000";
 const N2: &str = "127.0.0.2:6000";
 
+fn prng_bytes(n: usize, seed: u64) -> Vec<u8> {
+    let mut x: u64 = 0x9e37_79b9_7f4a_7c15 ^ seed;
+    (0..n)
+        .map(|_| {
+            x ^= x << 13;
+            x ^= x >> 7;
+            x ^= x << 17;
+            (x & 0xff) as u8
+        })
+        .collect()
+}
+
 fn values(thorough: bool) -> Vec<(String, Vec<u8>)> {
     let mut v: Vec<(String, Vec<u8>)> = vec![
         ("empty".into(), vec![]),
@@ -31,6 +43,12 @@ fn values(thorough: bool) -> Vec<(String, Vec<u8>)> {
         ("literal OK".into(), b"OK".to_vec()),
         ("integer text".into(), b"12345".to_vec()),
     ];
+    // large values around the streaming buffer sizes of the compression library (8 KiB chunks,
+    // 128 KiB blocks), incompressible (the stored frame is as large as the value) and compressible
+    for n in if thorough { vec![8191usize, 8192, 8193, 131071, 131072, 131073, 200_000, 262_144, 1 << 20, 3_000_000] } else { vec![8193usize, 131072, 200_000] } {
+        v.push((format!("{} pseudo-random bytes", n), prng_bytes(n, n as u64)));
+    }
+    v.push(("300000 bytes of text".into(), b"undermoon ".iter().cloned().cycle().take(300_000).collect()));
     if thorough {
         v.push(("64 KiB zeros".into(), vec![0u8; 65536]));
         v.push(("zstd magic only".into(), vec![0x28, 0xB5, 0x2F, 0xFD]));
